@@ -29,7 +29,7 @@ MC_INV = [
     "GraphAccepted", "RejectedIsOutside",
     "GridTotal", "ConsumerTotal", "ProducerTotal", "BatteryTotal", "PVTotal", "PVDfsTotal", "EVTotal", "CHPTotal",
     "Generated", "FallbackEqualsPrimary", "Balance",
-    "NoDeviation", "LegacyWrongIffCause", "LegacyBalanceWrongIffCause", "RepairOnlyWhereCause",
+    "NoDeviation", "LegacyWrongIffCause", "LegacyBalanceWrongIffCause", "RepairOnlyWhereCause", "ChpDevIsTight",
     "PVTwoWaysAgree", "TruthBalances",
 ]
 ACTIONS = [
@@ -268,7 +268,7 @@ def _stage(rep: Report, prop: str, name: str, consts: dict, limit, expect_reject
     )
     # vacuity: antecedents that depend on the graph only (the code under test cannot empty them)
     need = ["graph", "with_grid_meter", "without_grid_meter", "chp_without_dedicated_meter", "chp_with_dedicated_meter",
-            "load", "nested", "dedicated_meter"]
+            "load", "nested", "dedicated_meter", "grid_meter_over_one_device_type", "grid_meter_as_chp_meter"]
     if consts["MaxN"] >= 5:
         need.append("dev")
     for k in need:
@@ -283,6 +283,11 @@ def _stage(rep: Report, prop: str, name: str, consts: dict, limit, expect_reject
             drift["count"] += 1
             if len(drift["examples"]) < 5:
                 drift["examples"].append(dict(stage=name, clause=v["clause"], detail=v["detail"]))
+            continue
+        if v["clause"].startswith("EXT."):
+            obs = rep.extra.setdefault("observations", {}).setdefault(v["clause"], dict(count=0, example=None))
+            obs["count"] += 1
+            obs["example"] = obs["example"] or v["detail"]
             continue
         if not v["clause"].startswith(prop + "."):
             continue
@@ -309,8 +314,10 @@ def run(prop: str, tier: str) -> int:
     rep.assumptions = [
         "graphs are trees: node 1 = grid, parent[i] < i, only the grid and meters have successors, CHPs hang below a meter, "
         "one battery per battery inverter; no hybrid inverters, no component with two predecessors",
-        "a meter is 'dedicated to one device type' when all its successors are devices of one type (purely structural, "
-        "also for a meter that is the only grid successor); only the other meters carry an unmetered-load variable",
+        "a meter is 'dedicated to one device type' when all its successors are devices of one type AND it is not the grid "
+        "meter (the only grid successor); every other meter, and always the grid meter, carries an unmetered-load variable",
+        "a fallback attached to a term with an own unmetered-load variable (the grid meter above devices of one type) must "
+        "equal the term minus that load (it cannot know it); reported as observation EXT.FallbackOmitsUnmeteredLoad",
         "a meter reads exactly the sum of everything below it plus its own unmetered load; a device reads its own AC power; "
         "formulas are compared as linear forms (exact integers), so every assignment of device powers is covered",
         "generators are called the way the SDK calls them for the whole microgrid (all batteries / PV inverters / EV chargers)",
